@@ -99,6 +99,9 @@ type internalStruct struct {
 	// based type
 	Type      string          `json:",omitempty"`
 	JSONValue json.RawMessage `json:",omitempty"`
+	// NonNilPointerNum is set for a nil pointer below the outermost level: the number of leading pointer levels that
+	// are NOT nil (a non-nil **T pointing to a nil *T has 1; the outermost nil, and every non-nil value, has 0)
+	NonNilPointerNum uint32 `json:",omitempty"`
 
 	// struct type
 	StructType string `json:",omitempty"`
@@ -132,6 +135,7 @@ func internalMarshal(v any) (*internalStruct, error) {
 	for rt.Kind() == reflect.Ptr {
 		ret.PointerNum++
 		if rv.IsNil() {
+			ret.NonNilPointerNum = ret.PointerNum - 1
 			// the levels below the nil one belong to the type as well: a nil **T is recorded with depth 2
 			rt = rt.Elem()
 			for rt.Kind() == reflect.Ptr {
@@ -278,6 +282,18 @@ func internalUnmarshal(v *internalStruct) (any, error) {
 			return nil, fmt.Errorf("unknown type key: %v", v.Type)
 		}
 		pResult := reflect.New(resolvePointerNum(v.PointerNum, t))
+		if v.NonNilPointerNum > 0 {
+			// a nil below the outermost level: the levels above it are allocated, the rest stays nil
+			if v.NonNilPointerNum >= v.PointerNum {
+				return nil, fmt.Errorf("unmarshal type[%s] fail: %d non-nil pointer levels of %d", v.Type, v.NonNilPointerNum, v.PointerNum)
+			}
+			cur := pResult.Elem()
+			for i := uint32(0); i < v.NonNilPointerNum; i++ {
+				cur.Set(reflect.New(cur.Type().Elem()))
+				cur = cur.Elem()
+			}
+			return pResult.Elem().Interface(), nil
+		}
 		err := sonic.Unmarshal(v.JSONValue, pResult.Interface())
 		if err != nil {
 			return nil, fmt.Errorf("unmarshal type[%s] fail: %v, data: %s", v.Type, err, string(v.JSONValue))
